@@ -344,14 +344,17 @@ def h_marker_stage(ctx, case):
         return 'EXC ' + type(res['raised']).__name__
     ctx.reach('written')
     RM.check_tables(ctx, res)
+    if case.get('thresholds'):
+        RM.check_thresholds(ctx, res)
     return 'ok'
 
 
 HARNESSES = [
     Harness('marker_table_stage', h_marker_stage, setup=_rm_setup,
             cases=[{'vary': ['c0', 'c2', 'c3']},
-                   {'vary': ['c3'], 'default_size': 1}],
-            thorough_cases=[{}],
+                   {'vary': ['c3'], 'default_size': 1},
+                   {'vary': [], 'fixed': True, 'thresholds': True}],
+            thorough_cases=[{}, {'vary': ['c0'], 'thresholds': True}],
             funcs=['markers.find_markers_for_all_taxonomy_pairs',
                    'create_sparse_by_pair_marker_file', '_prep_output_file',
                    '_prep_chunk', '_find_markers_worker',
@@ -373,8 +376,12 @@ HARNESSES = [
             expect_reach=['written'], split=32),
     Harness('p_value_mask_route_stage', h_marker_stage, setup=_rm_setup,
             cases=[{'vary': ['c0', 'c3'], 'route': 'mask'},
-                   {'vary': ['c3'], 'default_size': 1, 'route': 'mask'}],
-            thorough_cases=[{'route': 'mask'}],
+                   {'vary': ['c3'], 'default_size': 1, 'route': 'mask'},
+                   {'vary': [], 'fixed': True, 'route': 'mask',
+                    'thresholds': True}],
+            thorough_cases=[{'route': 'mask'},
+                            {'vary': ['c0'], 'route': 'mask',
+                             'thresholds': True}],
             funcs=['p_value_mask.create_p_value_mask_file',
                    '_create_p_value_mask_file', '_p_values_worker',
                    '_merge_masks',
